@@ -237,3 +237,5 @@ def run(ctx):
                       json.dumps(rec), {'file': b['file'], 'line': b['l']})
     ctx.sample({'kind': 'C->S record', **recs[len(recs) // 2]})
     ctx.sample({'kind': 'C->S record', **recs[-1]})
+    from .. import umbrella
+    umbrella.run(ctx, am, 'C02')      # cross-module histories of spec/Atomman.tla (only the steps this property owns are reported here)
